@@ -41,9 +41,9 @@ CHECKS["C05"] = dict(engine="TestCommand", ref="3 (C05), Appendix C", note=_E2E_
 CHECKS["C14"] = dict(engine="TestCommand", ref="3 (C14), Appendix A.2", note=_E2E_NOTE + " Timing: durations 0 or 3 s against limits 1 or 6 s, 1.5 s slack, so scheduling noise cannot flip a verdict.", technique=_E2E_TECH,
     text="The model carries an integer clock, the document deadline and the PickLimit step (min of per-test timeout and remaining document time); TLC checks C14ok on all 117 combinations of slow-test position x per-test timeout {none,1,6} x front-matter total_timeout {none,0,1,6} x --timeout-seconds {none,1,6} (Markdown) and the Cram variants. ALL of them are run with the real binary (sleep 3) in the quick tier; TLC evaluates on each observed run: exceeded limit => timeout result + later ones skipped and not run + exit 50 + document stopped within limit+1.5 s + the timed-out command really ended (no late marker); inside all limits => never timeout.")
 CHECKS["C15"] = dict(engine="TestCommand", ref="3 (C15)", note=_E2E_NOTE, technique=_E2E_TECH,
-    text="Scenario family: skipping test case at position 0..3, skip code default 80 / document default 7 / inline 9 / decoy (exit 80 where the code is 7), expected exit code of the skipper none / equal / other, passing and failing neighbours, a second document before or after, Cram `exit 80` and `(exit 80)`. TLC checks C15ok on the model for all 1922 scenarios and on each observed run of the real binary: skipping document => every result skipped, run not failed by it, other documents unaffected; otherwise no skipped result.")
+    text="Scenario family: skipping test case at position 0..3, skip code default 80 / document default 7 / inline 9 / decoy (exit 80 where the code is 7), expected exit code of the skipper none / equal / other, passing and failing neighbours, a second document before or after, Cram `exit 80` and `(exit 80)`, Markdown documents run with --cram-compat (the script executor takes ONE configuration: differing skip codes are an execution error, a uniform custom code must work), a detached test case before the skipping one. TLC checks C15ok on the model for all 1977 scenarios and on each observed run of the real binary: skipping document => every result skipped, run not failed by it, other documents unaffected; otherwise no skipped result.")
 CHECKS["C20"] = dict(engine="TestCommand", ref="3 (C20)", note=_E2E_NOTE, technique=_E2E_TECH,
-    text="Scenario family: 1-3 documents (Markdown and Cram mixed), shared prepend/append documents via -P/-A or front-matter, test cases that pass / fail on output / fail on code / detach / skip / die, faults (unreadable document, unparsable document, missing shell). TLC checks C20ok on the model (6342 scenarios) and on each observed run: the marker log lists every command once in assembled order (prefix when a document was cut short), at most one result per test case and one for every non-detached one, exit status 1 / 50 / 0 as specified, and the pretty renderer's summary adds up and agrees with the JSON results.")
+    text="Scenario family: 1-3 documents (Markdown and Cram mixed), shared prepend/append documents via -P/-A or front-matter, test cases that pass / fail on output / fail on code / detach / skip / die, faults (unreadable document, unparsable document, missing shell), shared documents together with a per-test timeout, a detached test case before a test case that cuts the document short (timeout, signal, skip). TLC checks C20ok on the model (10354 scenarios) and on each observed run: the marker log lists every command once in assembled order (prefix when a document was cut short), at most one result per test case and one for every non-detached one, exit status 1 / 50 / 0 as specified, and the pretty renderer's summary adds up and agrees with the JSON results.")
 
 CHECKS["C06"] = dict(engine="MarkdownDoc", ref="3 (C06), Appendix A.3",
     text="specs/MarkdownDoc.tla gives a declarative reading MdRef of a document built from segments (prose lines incl. lines starting with one or two backticks and `---`, front-matter terminated or not, verbatim blocks with 3/4-backtick fences and nested shorter fences, scrut blocks with config, comments, continuations, `$`/`>`/`#`-looking output, `[n]`, empty and command-less bodies, unterminated blocks) and a line-by-line tokenizer machine shaped like src/parsers/markdown.rs with explicit end-of-input actions; TLC checks that the machine yields exactly MdRef on every document in the bound (6891 quick) and emits each document with its reference. The real MarkdownParser parses every document in 4 renderings (LF/CRLF x final newline or not); TLC compares each result with the reference: no panic; Ok => exactly the referenced tests (command, expectation lines, exit code, inline config, 1-based `$` line, title) and never Ok where only an error is acceptable.",
@@ -85,7 +85,7 @@ CHECKS["C17"] = dict(engine="ConfigRoundTrip", ref="3 (C17), 8",
     technique="TLA+ enumeration of configurations by value class, render + parse with the real code, TLC judgement of key-wise equality")
 
 CHECKS["C19"] = dict(engine="Render", ref="3 (C19)",
-    text="specs/Render.tla composes the matcher of specs/DiffAlgo.tla with the hunk assembler of the diff renderer (unmatched_start / unexpected_start / flush, one action per branch) and TLC checks that every unmatched expectation and every unexpected line of every result the matcher can produce (3x2 quick: 5039 inputs, 78 distinct shapes; 3x3 thorough) appears in exactly one hunk, in order, and that a result without differences yields no hunk. Every input is concretised through the real rules in two of 8 text families (ASCII, multi-byte, wide CJK, trailing ASCII blanks, trailing Unicode whitespace, control bytes, 10 000-character lines, empty lines), validated by the real code into an Outcome, combined with a second outcome of another result kind (success, invalid exit code, internal error, timeout, skipped) and rendered by all five renderers (pretty colour / mono with 0, 1, 5 surrounding lines and relative / absolute line numbers up to 10^5, diff, json, yaml; Markdown / Cram, both escapers, with / without location). TLC judges every record: a rendering is returned, human renderings contain every unmatched expectation and unexpected line (diff: exactly the expected -/+ lines in order) and no section for a passed test, json / yaml are well-formed with one entry per outcome and its result kind.",
+    text="specs/Render.tla composes the matcher of specs/DiffAlgo.tla with the hunk assembler of the diff renderer (unmatched_start / unexpected_start / flush, one action per branch) and TLC checks that every unmatched expectation and every unexpected line of every result the matcher can produce (3x2 quick: 5039 inputs, 78 distinct shapes; 3x3 thorough) appears in exactly one hunk, in order, and that a result without differences yields no hunk. Every input is concretised through the real rules in two of 8 text families (ASCII, multi-byte, wide CJK, trailing ASCII blanks, trailing Unicode whitespace, control bytes, 10 000-character lines, empty lines), validated by the real code into an Outcome, combined with a second outcome of another result kind (success, invalid exit code, internal error, timeout, skipped, a second failing test with the same location and line number as it happens with prepended documents) and rendered by all five renderers (pretty colour / mono with 0, 1, 5 surrounding lines and relative / absolute line numbers up to 10^5, diff, json, yaml; Markdown / Cram, both escapers, with / without location). TLC judges every record: a rendering is returned, human renderings contain every unmatched expectation and unexpected line (diff: exactly the expected -/+ lines in order) and no section for a passed test, json / yaml are well-formed with one entry per outcome and its result kind.",
     note="Trusted: TLC; 'shown' is a substring / line-sequence comparison done by the harness. Valid UTF-8 text only.",
     technique="TLA+ spec of the hunk assembler composed with the matcher spec, TLC check on all reachable diff shapes, shapes replayed through the five real renderers, TLC judgement of every record")
 
@@ -100,7 +100,7 @@ CHECKS["C13"] = dict(engine="Capture", ref="3 (C13)",
     technique="TLA+ spec of recorded stream + CR LF / substitution / divider machines, TLC check and enumeration, commands run through both real executors, TLC comparison of recorded bytes")
 
 CHECKS["C18"] = dict(engine="WorkDirs", ref="3 (C18)",
-    text="specs/WorkDirs.tla models the directory lifecycle of scrut processes (per document: NewEnv creates execution.* + __tmp, or temp.* inside --work-directory, or kept directories; InitTestFile creates the uniquely named working directory; Execute; DropEnv) with several processes interleaved by TLC, and checks Clean (at exit nothing the process created remains unless --keep-temporary-directories; W remains) and Separate (no two documents of any process share a working directory in default mode). TLC enumerates 360 per-process scenarios (mode x outcome classes pass / fail / timeout / skip of 1-2 documents x identical file names x test cases that leave / unset / overwrite the documented variables). Experiments of 1-3 real scrut processes started at the same time under one private temporary root run these scenarios: every test case logs its working directory and the documented variables, the driver snapshots the temporary root after each exit and again after a grace period longer than the longest command. TLC judges every experiment: nothing left (immediately and later), W kept and clean, one working directory per document and none shared, TESTDIR / TESTFILE / TESTSHELL / TMPDIR / LANG / LANGUAGE / LC_ALL / TZ / COLUMNS / CDPATH / GREP_OPTIONS / SCRUT_TEST=<path>:<line of its own $ line> as documented for every test case, also after a previous test case unset or overwrote them.",
+    text="specs/WorkDirs.tla models the directory lifecycle of scrut processes (per document: NewEnv creates execution.* + __tmp, or temp.* inside --work-directory, or kept directories; InitTestFile creates the uniquely named working directory; Execute; DropEnv) with several processes interleaved by TLC, and checks Clean (at exit nothing the process created remains unless --keep-temporary-directories; W remains) and Separate (no two documents of any process share a working directory in default mode). TLC enumerates 1008 per-process scenarios (mode x outcome classes pass / fail / timeout / skip / timeout with SIGTERM ignored / timeout with closed streams of 1-2 documents x identical file names x test cases that leave / unset / overwrite the documented variables, or a run with -P / -A documents whose test cases must see each document's environment too). Experiments of 1-3 real scrut processes started at the same time under one private temporary root run these scenarios: every test case logs its working directory and the documented variables, the driver snapshots the temporary root after each exit and again after a grace period longer than the longest command. TLC judges every experiment: nothing left (immediately and later), W kept and clean, one working directory per document and none shared, TESTDIR / TESTFILE / TESTSHELL / TMPDIR / LANG / LANGUAGE / LC_ALL / TZ / COLUMNS / CDPATH / GREP_OPTIONS / SCRUT_TEST=<path>:<line of its own $ line> as documented for every test case, also after a previous test case unset or overwrote them.",
     note="Trusted: TLC; the kernel and tempfile crate for real file-system behaviour (only sampled). Parse errors and a missing shell create no directories at all (covered by C20). Hook H4 was not needed: everything is observable from outside.",
     technique="TLA+ spec of the directory lifecycle with interleaved processes, TLC check + enumerated scenarios run as concurrent real processes, TLC judgement of directory snapshots and per-test environment logs")
 
